@@ -276,3 +276,19 @@ example :
     ("Rust", "Rust", "Makefile", "Plain Text", "Plain Text", "Plain Text") := by decide
 
 end C15
+
+namespace C15
+open Superimpose
+
+/-- Moving a file to another directory never changes its language: only the last path
+component is looked at. -/
+theorem language_ignores_directory {σ : Type} (byExt : List Char → Option σ) (fallback : σ)
+    (dir₁ dir₂ name : List Char) (hs : '/' ∉ name) (h1 : name ≠ []) (h2 : name ≠ ['.']) :
+    getSyntax byExt fallback (some (dir₁ ++ '/' :: name)) =
+      getSyntax byExt fallback (some (dir₂ ++ '/' :: name)) := by
+  apply language_by_file_name
+  rw [fileName_dir dir₁ name hs h1 h2, fileName_dir dir₂ name hs h1 h2]
+
+example : '/' ∉ "main.rs".toList ∧ "main.rs".toList ≠ [] ∧ "main.rs".toList ≠ ['.'] := by decide
+
+end C15
